@@ -3,6 +3,14 @@
 //        weights; dist=1 one 1-d distribution; name = index of distribution name; ob = obligation
 #include "driver_common.hpp"
 
+// the parameters a checkpoint header holds (alpha; beta and the minimum weight) are not whole numbers
+template <typename T>
+static sym::cond<T> fractional_parameters(H<T>& h, world<T>& w)
+{
+    auto in = [&](T const& x) { return h.lt(T(0.0625), x) && h.lt(x, T(0.9375)); };
+    return in(w.alpha) && in(w.beta) && in(w.minw);
+}
+
 // ---- ob 0: resume == never stopping (C03), lossless text (C05) ---------------------------------------
 template <typename T, typename A>
 static void ob_resume(H<T>& h)
@@ -21,6 +29,9 @@ static void ob_resume(H<T>& h)
     {
         bool ok = false;
         std::string const t0 = ser(base);
+        // (asserted for parameters that are not whole numbers, so that a counterexample shows in the replayed text)
+        h.check("C03,C05|text.numbers_of_the_empty_checkpoint_written_in_a_format_that_keeps_max_digits10_digits",
+            !fractional_parameters<T>(h, w) || h.truth(all_numbers_well_formatted<T>(t0)));
         auto const b2 = reload<T, A>(h, t0, "empty_checkpoint", ok);
         h.check("C05|empty_checkpoint.read_back_completely_with_identical_fields_and_text",
             ok ? (same_chk<T>(h, base, b2) && texts_identical<T>(h, t0, ser(b2))) : h.truth(false));
@@ -140,7 +151,7 @@ static void ob_rollback(H<T>& h)
             bool threw = false;
             try { twice.rollback(k1); twice.rollback(k2); once.rollback(k2); }
             catch (std::out_of_range const&) { threw = true; }
-            h.check("C15|rollback.successive_rollbacks_equal_the_single_rollback",
+            h.check("C15,C19|rollback.successive_rollbacks_equal_the_single_rollback",
                 threw ? h.truth(false) : texts_identical<T>(h, ser(once), ser(twice)));
         }
     }
@@ -625,6 +636,40 @@ static void by_ob(H<T>& h)
 
 // ---- ob 11: the checkpoint object driven directly (add / pdf or channel_weights / rollback), one adaptive step from a
 // state with a discarded iteration (C07 C08 C15 C19): what was rolled back leaves no trace in the next grid / weights
+// a checkpoint without results (fresh, or emptied by rollback(0)): rollback(0) is accepted and changes nothing,
+// rollback(k >= 1) is rejected; its text keeps every number
+template <typename T, typename C>
+static void object_empty_checks(H<T>& h, world<T>& w, C const& c)
+{
+    std::string const before = ser(c);
+    h.check("C03,C05|object.numbers_of_a_checkpoint_emptied_by_rollback_written_in_a_format_that_keeps_max_digits10_digits",
+        !fractional_parameters<T>(h, w) || h.truth(all_numbers_well_formatted<T>(before)));
+    for (std::size_t k = 0; k != 3; ++k)
+    {
+        C copy = c;
+        bool threw = false;
+        try { copy.rollback(k); }
+        catch (std::out_of_range const&) { threw = true; }
+        if (k == 0)
+            h.check("C15|object.rollback_zero_of_an_empty_checkpoint_changes_nothing", threw ? h.truth(false) : texts_identical<T>(h, before, ser(copy)));
+        else
+            h.check("C15|object.rollback_beyond_the_last_iteration_of_an_empty_checkpoint_is_rejected", h.truth(threw));
+    }
+}
+
+template <typename T>
+static void ob_object_plain(H<T>& h)
+{
+    world<T> w(h);
+    auto c = plain_alg<T>::fresh(w);
+    object_empty_checks<T>(h, w, c);
+    sym::stub_engine g;
+    hep::plain_result<T> const pr(std::vector<hep::distribution_result<T>>(), 2, 2, 2, h.input("sum", -1e6, 1e6), h.input("sumsq", 0.0, 1e6));
+    c.add(pr, g);
+    c.rollback(0);
+    object_empty_checks<T>(h, w, c);
+}
+
 template <typename T>
 static void ob_object_vegas(H<T>& h)
 {
@@ -642,6 +687,7 @@ static void ob_object_vegas(H<T>& h)
     h.check("C07|object.all_zero_iteration_leaves_the_grid_as_it_was", same_pdf<T>(h, p1, p0));
     c.rollback(0);
     h.check("C15|object.rollback_to_zero_gives_the_first_grid", same_pdf<T>(h, c.pdf(), p0) && h.truth(c.results().empty()));
+    object_empty_checks<T>(h, w, c);
     std::vector<T> data;
     for (std::size_t i = 0; i != nb; ++i) data.push_back(h.input("data", 0.0, 1e6));
     c.add(hep::vegas_result<T>(pr, p0, data), g);
@@ -668,6 +714,7 @@ static void ob_object_multi(H<T>& h)
     h.check("C08|object.all_zero_iteration_leaves_the_weights_as_they_were", same_vec<T>(h, w1, w0));
     c.rollback(0);
     h.check("C15|object.rollback_to_zero_gives_the_first_weights", same_vec<T>(h, c.channel_weights(), w0) && h.truth(c.results().empty()));
+    object_empty_checks<T>(h, w, c);
     std::vector<T> data;
     for (std::size_t i = 0; i != w.C; ++i) data.push_back(h.input("data", 0.0, 1e6));
     c.add(hep::multi_channel_result<T>(pr, data, w0), g);
@@ -684,7 +731,9 @@ static void body(H<T>& h)
     if (h.get("ob", 0) == 9) { ob_summary<T>(h); return; }
     if (h.get("ob", 0) == 11)
     {
-        if (h.get("alg", 1) == 1) ob_object_vegas<T>(h); else ob_object_multi<T>(h);
+        if (h.get("alg", 1) == 1) ob_object_vegas<T>(h);
+        else if (h.get("alg", 1) == 2) ob_object_multi<T>(h);
+        else ob_object_plain<T>(h);
         return;
     }
     switch (h.get("alg", 0))
